@@ -1,6 +1,7 @@
 ------------------------------- MODULE P_C06 -------------------------------
 (* C06 as a monitor: waiting for a resource during component start-up.
-     get.begin(c, t, n, mode)     component c asks for (type t, name n); mode "wait" (non-optional, during start-up), "opt", "nowait"
+     get.begin(c, t, n, mode)     component c asks for (type t, name n); mode "wait" (non-optional, during start-up), "giveup" (the same,
+                                  inside a timeout of the component's own: it may end with r = "gaveup"), "opt", "nowait"
      get.end(c, t, n, r, v)       the lookup ends: r = "val" (object v), "none", "notfound", "other:<exception>"
      publish(c, ts, n, kind, v)   a resource (kind "res", value v) or a factory (kind "fac", product v) becomes available under
                                   every type in ts with name n
@@ -24,8 +25,9 @@ MonNext(m, e) ==
          ELSE LET i == CHOOSE i \in OpenOf(m, e.c) : TRUE
                   g == m.open[i]
                   m1 == [m EXCEPT !.open = [j \in 1..(Len(@) - 1) |-> IF j < i THEN @[j] ELSE @[j + 1]]] IN
-              IF Matching(m, g.t, g.n) = {} THEN
-                   (IF g.mode = "wait" THEN Fail(m1, "waiter-released-without-a-matching-publication")
+              IF e.r = "gaveup" THEN (IF g.mode = "giveup" THEN Hit(m1, "gave-up") ELSE Fail(m1, "lookup-abandoned-without-being-asked-to"))
+              ELSE IF Matching(m, g.t, g.n) = {} THEN
+                   (IF g.mode \in {"wait", "giveup"} THEN Fail(m1, "waiter-released-without-a-matching-publication")
                     ELSE IF g.mode = "opt" /\ e.r # "none" THEN Fail(m1, "optional-lookup-of-a-missing-resource-did-not-return-None")
                     ELSE IF g.mode = "nowait" /\ e.r # "notfound" THEN Fail(m1, "lookup-outside-startup-did-not-raise-ResourceNotFound")
                     ELSE Hit(m1, "miss-" \o g.mode))
@@ -35,7 +37,7 @@ MonNext(m, e) ==
     [] e.ev = "q" ->
          LET W == Range(e.waiting) IN
          IF \E i \in DOMAIN m.open : m.open[i].c \in W /\ Matching(m, m.open[i].t, m.open[i].n) # {} THEN Fail(m, "lost-wakeup-waiter-still-blocked-after-a-matching-publication")
-         ELSE IF \E i \in DOMAIN m.open : m.open[i].c \in W /\ m.open[i].mode # "wait" THEN Fail(m, "optional-or-non-startup-lookup-is-waiting")
+         ELSE IF \E i \in DOMAIN m.open : m.open[i].c \in W /\ m.open[i].mode \notin {"wait", "giveup"} THEN Fail(m, "optional-or-non-startup-lookup-is-waiting")
          ELSE IF W # {} THEN Hit(m, "waiting") ELSE m
     [] OTHER -> m
 =============================================================================
